@@ -263,6 +263,32 @@ impl Convex {
             -dmin
         }
     }
+    /// the width of the polygon: the smallest extent over all edge normals
+    pub fn width(&self) -> f64 {
+        let n = self.pts.len();
+        let mut w = f64::INFINITY;
+        for i in 0..n {
+            let a = self.pts[i];
+            let b = self.pts[(i + 1) % n];
+            let e = b.sub(a);
+            if e.len() == 0. {
+                continue;
+            }
+            let nrm = e.perp().unit();
+            let (mut lo, mut hi) = (f64::INFINITY, f64::NEG_INFINITY);
+            for p in &self.pts {
+                let d = p.sub(a).dot(nrm);
+                lo = lo.min(d);
+                hi = hi.max(d);
+            }
+            w = w.min(hi - lo);
+        }
+        if w.is_finite() {
+            w
+        } else {
+            0.
+        }
+    }
     pub fn transform(&self, t: &T64) -> Convex {
         Convex {
             pts: self
